@@ -77,10 +77,13 @@ def pca_increment_native(ctx, n, d, centre, backed, precentred):
             batch = cls(wrap(X), centre=centre)
         m = cls(wrap(X[:parts[0]]), centre=centre)
         pos = parts[0]
+        tag = 'split%s' % parts
         for p in parts[1:]:
+            if centre and not np.any(np.asarray(m._mean)):
+                # signature of the recorded known finding: a CENTRED model whose mean is exactly 0.0 before an increment
+                ctx.drawn['centred_model_mean_exactly_zero_before_increment/' + tag] = 1.0
             m.increment(wrap(X[pos:pos + p]))
             pos += p
-        tag = 'split%s' % parts
         ctx.check_true(tag + '/n_samples', m.n_samples == n)
         ctx.check_eq(tag + '/mean', m._mean, batch._mean)
         k = min(len(m._eigenvalues), len(batch._eigenvalues))
@@ -104,19 +107,18 @@ def _graphs():
 
 
 @contract('C11', 'gmrf_increment_native', level='bounded', native_samples=1, tol=1e-6,
-          configs=[dict(graph=g, mode=m, sparse=s, bias=b) for g in ('edgeless4', 'chain4', 'cycle4', 'tree5', 'isolated6', 'directed4')
-                   for m in ('concatenation', 'subtraction') for s in (False, True) for b in (0, 1)],
+          configs=[dict(graph=g, mode=m, sparse=s, bias=b, fpv=fpv) for g in ('edgeless4', 'chain4', 'cycle4', 'tree5', 'isolated6', 'directed4')
+                   for m in ('concatenation', 'subtraction') for s in (False, True) for b in (0, 1) for fpv in (1, 2)],
           functions=['menpo.model.gmrf:GMRFVectorModel.increment', 'menpo.model.gmrf:GMRFVectorModel.__init__'])
-def gmrf_increment_native(ctx, graph, mode, sparse, bias):
+def gmrf_increment_native(ctx, graph, mode, sparse, bias, fpv=2):
     """bounded stand-in: feeding the data in several chunkings gives the mean
     and precision of the batch model."""
     from menpo.model import GMRFVectorModel
     rs = ctx.nprng
     G = _graphs()[graph]
-    fpv = 2
     n = 14
     X = rs.randn(n, G.n_vertices * fpv) + rs.randn(G.n_vertices * fpv)
-    X[:, ::2] += 0.5 * X[:, 1::2]
+    X = X + 0.5 * np.roll(X, 1, axis=1)
     batch = GMRFVectorModel(X.copy(), G, mode=mode, sparse=sparse, dtype=np.float64, bias=bias, incremental=True)
     Pb = batch.precision.toarray() if sparse else batch.precision
     for parts in ([7, 7], [5, 4, 5], [8, 1, 1, 4], [6, 8]):
